@@ -137,6 +137,9 @@ pub struct Func {
     pub attrs: String,
     /// struct index when this is a method
     pub method_of: Option<usize>,
+    /// forward declaration before the definition: 0 none, 1 defaults on both, 2 defaults only on the declaration,
+    /// 3 defaults only on the definition
+    pub proto: u8,
 }
 
 #[derive(Clone, Debug)]
@@ -272,6 +275,8 @@ pub struct Profile {
     pub seq_effects: bool,
     /// initialisers, assignments, arguments and returns may have another (implicitly convertible) type
     pub implicit: bool,
+    /// forward declarations of functions, with default arguments on the declaration, the definition or both
+    pub prototypes: bool,
     pub namespaces: bool,
     pub resources: bool,
     pub pipelines: bool,
@@ -304,6 +309,7 @@ impl Profile {
             loops: true,
             seq_effects: true,
             implicit: true,
+            prototypes: true,
             namespaces: true,
             resources: false,
             pipelines: false,
@@ -1631,8 +1637,15 @@ impl<'a> Gen<'a> {
             has_out,
             attrs: String::new(),
             method_of,
+            proto: 0,
         };
         self.cur_struct = None;
+        let mut f = f;
+        if method_of.is_none() && self.prof.prototypes && self.pick(5) == 0 {
+            // (mode 3 - defaults only on the definition after a declaration without them - is not generated: the front
+            // end keeps the declaration's arity and rejects calls that rely on the later defaults)
+            f.proto = 1 + self.pick(2) as u8;
+        }
         if let Some(si) = method_of {
             self.prog.structs[si].methods.push(f);
             let k = self.prog.structs[si].methods.len() - 1;
@@ -1683,6 +1696,7 @@ impl<'a> Gen<'a> {
             has_out: false,
             attrs: String::new(),
             method_of: None,
+            proto: 0,
         });
         self.prog.func_ns.push(Vec::new());
         self.prog.items.push(Item::Func(idx));
@@ -2431,19 +2445,28 @@ impl Renderer<'_> {
                 _ => self.ty(t),
             }
         };
-        let _ = write!(out, "{} {}(", tyname(&f.ret), self.n(f.name));
-        for (i, p) in f.params.iter().enumerate() {
-            if i > 0 {
-                out.push_str(", ");
+        let signature = |with_defaults: bool, out: &mut String| {
+            let _ = write!(out, "{} {}(", tyname(&f.ret), self.n(f.name));
+            for (i, p) in f.params.iter().enumerate() {
+                if i > 0 {
+                    out.push_str(", ");
+                }
+                out.push_str(["", "out ", "inout "][p.io as usize]);
+                let _ = write!(out, "{} {}", tyname(&p.ty), self.n(p.name));
+                if let (Some(d), true) = (&p.default, with_defaults) {
+                    out.push_str(" = ");
+                    self.expr(d, out);
+                }
             }
-            out.push_str(["", "out ", "inout "][p.io as usize]);
-            let _ = write!(out, "{} {}", tyname(&p.ty), self.n(p.name));
-            if let Some(d) = &p.default {
-                out.push_str(" = ");
-                self.expr(d, out);
-            }
+            out.push(')');
+        };
+        if f.proto != 0 && f.template.is_none() {
+            signature(f.proto != 3, out);
+            out.push_str(";\n");
+            Self::ind(out, lvl);
         }
-        out.push_str(") {\n");
+        signature(f.proto != 2 || f.template.is_some(), out);
+        out.push_str(" {\n");
         self.stmts(&f.body, out, lvl + 1);
         Self::ind(out, lvl);
         out.push_str("}\n\n");
